@@ -416,11 +416,14 @@ def write_evidence(prop, spec, tier, seed, frags, violations, inconclusive, wall
     }
     if inconclusive:
         ev["coverage"]["inconclusive"] = [m[:300] for m in inconclusive]
-    os.makedirs(os.path.join(ROOT, "evidence"), exist_ok=True)
-    paths = [os.path.join(ROOT, "evidence", prop + ".json")]
+    # development aid: sensitivity runs against a deliberately broken tree (run/try_mutant.sh, run/recheck_detection.py) set
+    # VERIF_EVIDENCE_DIR so that they do not overwrite the evidence of the real tree; registered commands never set it
+    evroot = os.environ.get("VERIF_EVIDENCE_DIR") or os.path.join(ROOT, "evidence")
+    os.makedirs(evroot, exist_ok=True)
+    paths = [os.path.join(evroot, prop + ".json")]
     if tier == "thorough":  # also kept apart: evidence/<id>.json is rewritten by every run, whichever tier ran last
-        os.makedirs(os.path.join(ROOT, "evidence", "thorough"), exist_ok=True)
-        paths.append(os.path.join(ROOT, "evidence", "thorough", prop + ".json"))
+        os.makedirs(os.path.join(evroot, "thorough"), exist_ok=True)
+        paths.append(os.path.join(evroot, "thorough", prop + ".json"))
     for path in paths:
         with open(path, "w") as f:
             json.dump(ev, f, indent=1, sort_keys=True)
